@@ -176,6 +176,7 @@ type recorded struct {
 	ends   map[int]*WLEnd
 	cfg    ref.IndexCfg
 	err    string
+	died   string // the workload process ended in a Go runtime fatal error or an unrecovered panic
 }
 
 func recordWorkload(cfg *RunCfg, spec WLSpec, runDir string, pre *fstrace.FS) *recorded {
@@ -220,6 +221,17 @@ func recordWorkload(cfg *RunCfg, spec WLSpec, runDir string, pre *fstrace.FS) *r
 		out, err := cmd.CombinedOutput()
 		if err != nil {
 			rec.err = fmt.Sprintf("strace run failed: %v: %s", err, clipStr(string(out), 300))
+			for _, mark := range []string{"fatal error: ", "panic: "} {
+				if i := strings.Index(string(out), mark); i >= 0 {
+					ln := string(out)[i:]
+					if j := strings.IndexByte(ln, '\n'); j >= 0 {
+						ln = ln[:j]
+					}
+					rec.died = clipStr(ln, 80)
+					rec.err = clipStr(string(out)[i:], 1500)
+					break
+				}
+			}
 			return rec
 		}
 		ptr, err := fstrace.Parse(trace, rec.root, marker)
@@ -1237,6 +1249,13 @@ func runCrashmon(cfg *RunCfg, rep *Reporter, cov *Cov, ev *Evidence) {
 	}
 	nOps := 0
 	for _, rec := range recs {
+		if rec.died != "" {
+			// not a crash that the harness injected: the process that runs the plain workload (the
+			// calls of the quantifier, nothing else) was ended by the Go runtime
+			rep.Report(Violation{Property: cfg.Property, Sig: "crashmon|workload-process-died:" + rec.died, What: fmt.Sprintf("the process running workload %s (no fault injected) was ended by the Go runtime: %s", rec.spec.Name, rec.died), Replay: map[string]any{"workload": rec.spec, "output": rec.err}})
+			cov.Add("workloads_died", 1)
+			continue
+		}
 		if rec.err != "" {
 			rep.Inconclusive("workload " + rec.spec.Name + ": " + rec.err)
 			cov.Add("workloads_inconclusive", 1)
